@@ -95,6 +95,7 @@ def run_case(spec):
     rnd = core.rng(spec)
     tier = os.environ.get("VERIF_TIER", "quick")
     files, _ = pygen.generate(spec["pseed"], "binding", p_fstring=0.03, p_star_import=0.0, body_len=(2, 4), n_funcs=(1, 2),
+                              p_cmp_arg=0.12,
                               n_classes=(0, 1))
     with core.Scratch() as tmp:
         root = tmp + "/p"
